@@ -1141,7 +1141,45 @@ func genWal(rng *rand.Rand, tier string, emit func(string)) {
 		if big {
 			steps = 5 // the 200 KB segment is decoded again by every reopen: keep the history short
 		}
+		lagCutAt := -1 // at this step: a LAGGING snapshot marker, then hard-state-only saves until the segment is cut
+		if !big && rng.Intn(3) == 0 {
+			lagCutAt = 2 + rng.Intn(steps)
+		}
 		for st := 0; st < steps; st++ {
+			if st == lagCutAt && g.comm > g.snapI && g.snapI+1 < g.last {
+				// the segment cut that follows a snapshot marker BELOW the last saved entry and is triggered by a Save without
+				// entries: the new segment must still be named after the last ENTRY (the marker must not rewind the writer's
+				// entry index); then a newer marker lands in the new segment and the log is reopened at it
+				hi := g.comm
+				if hi >= g.last {
+					hi = g.last - 1
+				}
+				if hi > g.snapI {
+					i := g.snapI + 1 + uint64(rng.Intn(int(hi-g.snapI)))
+					g.snapI = i
+					if l2, ok := g.do(fmt.Sprintf("snap %d %d", i, g.terms[i])); ok {
+						lay = l2
+						tail0 := lay.tail
+						for k := 0; k < 400 && lay.tail == tail0; k++ {
+							if g.comm < g.last && rng.Intn(3) == 0 {
+								g.comm++
+							}
+							l3, ok := g.do(fmt.Sprintf("save st=%d,%d,%d ents=-", g.term, g.vote, g.comm))
+							if !ok {
+								break
+							}
+							lay = l3
+						}
+						if lay.tail != tail0 && g.comm > g.snapI {
+							g.snapI = g.comm
+							if l4, ok := g.do(fmt.Sprintf("snap %d %d", g.snapI, g.terms[g.snapI])); ok {
+								lay = l4
+								g.openAt()
+							}
+						}
+					}
+				}
+			}
 			prevA, prevTail := lay.s, lay.tail
 			var line string
 			switch x := rng.Intn(20); {
